@@ -828,6 +828,47 @@ Proof.
   destruct (H11 p s Hp v) as [_ [_ Hn]]. apply Hn. repeat split; try assumption. apply c19_is_open_true, Hopen.
 Qed.
 
+(* ------------------------------------------------------------------------------------------ declined stays clean
+   however often the event of a DECLINED pull request is delivered, and whatever the gates say, its evaluation
+   creates no branch and no pull request: the only outcomes are "nothing", the reset command and the decline
+   handling, which delete / decline only *)
+
+Lemma c19_declined_never_creates c x w p w' :
+  NoDup (map pid (prs w)) -> In p (prs w) -> probot p = false -> pst p = DECLINED ->
+  step c w (EvalPR (pid p) x) = Ok w' ->
+  (forall n, In n (branches w') -> In n (branches w)) /\ c19_demote (prs w) (prs w').
+Proof.
+  intros ND Ip Hu Hd E. cbn [step] in E. unfold eval_pr in E.
+  rewrite (c19_resolve_user _ _ p ND Ip Hu) in E. unfold eval_user in E. rewrite Hd in E.
+  destruct (oc x) eqn:Eo; try (injection E as <-; split; [auto | apply c19_demote_refl]);
+    destruct (psrc p) as [s| | | |]; try discriminate E;
+    destruct (pdst p) as [|?|d| |]; try discriminate E;
+    destruct (targets_for d (cascade x)) as [ts|]; try discriminate E.
+  - (* reset *) injection E as <-. split.
+    + intros n Hn. cbn [reset branches] in Hn. apply filter_In in Hn. apply Hn.
+    + cbn [reset prs]. apply c19_demote_map. intro c0. apply c19_dem_decline. intro Hc.
+      apply andb_true_iff in Hc. destruct Hc as [Hc _]. apply andb_true_iff in Hc. apply c19_is_open_true, Hc.
+  - (* decline handling *) injection E as <-. split.
+    + intros n Hn. cbn [handle_declined branches] in Hn. apply c19_In_remove in Hn. apply Hn.
+    + cbn [handle_declined prs].
+      rewrite (c19_fold_left_map (fun v c0 => host_listed c0 && is_open c0 && child_match v s c0)
+                                 (fun l f => decline_first f l)).
+      apply c19_fold_demote. intros f c0 Hf Hc. apply in_map_iff in Hf. destruct Hf as [v [<- _]].
+      apply andb_true_iff in Hc. destruct Hc as [Hc _]. apply andb_true_iff in Hc. apply c19_is_open_true, Hc.
+Qed.
+
+(* after the decline handling none of the w/ names of p is left, and a second delivery changes no branch *)
+Lemma c19_declined_clean c x w p s d ts w' :
+  NoDup (map pid (prs w)) -> In p (prs w) -> probot p = false -> pst p = DECLINED ->
+  psrc p = Src s -> pdst p = Dst d -> targets_for d (cascade x) = Some ts -> oc x = ODeclined ->
+  step c w (EvalPR (pid p) x) = Ok w' -> NoIntegrationBranchLeft s ts w'.
+Proof.
+  intros ND Ip Hu Hd Hs Hdst Ht Ho E. cbn [step] in E. unfold eval_pr in E.
+  rewrite (c19_resolve_user _ _ p ND Ip Hu) in E. unfold eval_user in E. rewrite Ho, Hd, Hs, Hdst, Ht in E.
+  injection E as <-. intros v Hv HI. cbn [handle_declined branches] in HI. apply c19_In_remove in HI.
+  apply (proj2 HI). exists v. split; [exact Hv | reflexivity].
+Qed.
+
 (* ------------------------------------------------------------------------------------------ executable forms *)
 
 Lemma c19_count_le_of_forallb bs n :
